@@ -516,3 +516,8 @@ Proof.
 Qed.
 End OM.
 Print Assumptions Omega_tie.
+
+(* ---------- the public getters (SequenceParameters) are exactly a return of the backend call with their own arguments ---------- *)
+Lemma fw_get_Omega : g_fw_get_Omega = SReturn (ECall "SeqObj.Omega"%string []). Proof. reflexivity. Qed.
+Lemma fw_get_Omega_sequence : g_fw_get_Omega_sequence = SReturn (ECall "SeqObj.Omega_seq"%string []). Proof. reflexivity. Qed.
+Lemma fw_get_kappa_X : g_fw_get_kappa_X = SReturn (ECall "SeqObj.kappa_X"%string [EVar "grp1"%string; EVar "grp2"%string]). Proof. reflexivity. Qed.
